@@ -135,6 +135,49 @@ def run(env):
                 m[k][i] = (m[k][i] * g) % p if k in ("t_hats", "cs", "c_hats") else (m[k][i] + 1) % q
                 add(sp, "mut-%s[%d]/N=%d" % (k, i, n), True, proof=wire.hx(wire.proof_bytes(fl, m)))
                 cases[-1]["_notie"] = (i % 9 != n % 9) or not env.quick and n > 40
+        # pairs of alterations that cancel in a PRODUCT or SUM of the per-ciphertext equations (a verifier that folds the N
+        # chain equations, or the responses, into one aggregate must still reject): unhashed responses moved in opposite
+        # directions, and commitments multiplied / divided by the same factor
+        ginv = pow(g, p - 2, p)
+        for (i, j) in sorted({(0, 1), (3, n - 3), (n - 2, n - 1), (0, n - 1)}):
+            for k in ("s_hats", "s_primes"):
+                for d in (1, q - 1, 12345):
+                    m = copy.deepcopy(pf); m[k][i] = (m[k][i] + d) % q; m[k][j] = (m[k][j] - d) % q
+                    add(sp, "pair-%s[%d,%d]/N=%d" % (k, i, j, n), True, proof=wire.hx(wire.proof_bytes(fl, m)))
+                    cases[-1]["_notie"] = not (d == 1 and i == 0 and j == 1)
+            for k in ("t_hats", "cs", "c_hats"):
+                m = copy.deepcopy(pf); m[k][i] = (m[k][i] * g) % p; m[k][j] = (m[k][j] * ginv) % p
+                add(sp, "pair-%s[%d,%d]/N=%d" % (k, i, j, n), True, proof=wire.hx(wire.proof_bytes(fl, m)))
+                cases[-1]["_notie"] = True
+            m = copy.deepcopy(pf); m["s_hats"][i] = (m["s_hats"][i] + 1) % q; m["s_primes"][j] = (m["s_primes"][j] + q - 1) % q
+            add(sp, "pair-s_hats/s_primes[%d,%d]/N=%d" % (i, j, n), True, proof=wire.hx(wire.proof_bytes(fl, m)))
+            cases[-1]["_notie"] = True
+    # one Shuffler value answering a sequence of verifications: an accepted proof first, then the same proof against
+    # other statements / labels, then another accepted proof (state kept by the verifier must not change any answer)
+    seq_specs = [sp for sp in live if int(sp["ctx"].split(":")[1]) > 2 ** 60 and sp["n"] >= 2][:2] + [sp for sp in big_live][:2]
+    for sp in seq_specs:
+        ctx = sp["ctx"]; fl = ctx[0]; p, q, g = pq(ctx); n = sp["n"]
+        pf = wire.parse_proof(fl, wire.unhx(sp["_proof"]))
+        m1 = copy.deepcopy(pf); m1["s_hats"][0] = (m1["s_hats"][0] + 1) % q
+        e2 = list(sp["_es"]); e2[0] = sp["_es"][-1]; e2[-1] = sp["_es"][0]
+        o2 = list(sp["_out"]); o2[0] = [sp["_out"][0][0], str((int(sp["_out"][0][1]) * g) % p)]
+        lab = sp.get("label", "x:")
+        steps = [[sp["_proof"], sp["_es"], sp["_out"], lab, True], [sp["_proof"], e2, sp["_out"], lab, False], [sp["_proof"], sp["_es"], o2, lab, False],
+                 [sp["_proof"], sp["_es"], sp["_out"], lab + "00", False], [wire.hx(wire.proof_bytes(fl, m1)), sp["_es"], sp["_out"], lab, False],
+                 [sp["_proof"], sp["_es"], sp["_out"], lab, True]]
+        got = env.harness([{"ctx": ctx, "op": "check_proof_seq", "args": [sp["_pk"], sp["_gens"], [st[:4] for st in steps]], "tag": "one-verifier-sequence"}])[0]
+        want = [st[4] for st in steps]
+        if got != want:
+            env.violation("one Shuffler value verifying a sequence of statements on %s (N=%d) answers %s, expected %s" % (ctx, n, got, want),
+                          {"kind": "battery", "case": {"ctx": ctx, "op": "check_proof_seq", "args": [sp["_pk"], sp["_gens"], [st[:4] for st in steps]]}, "out": got})
+        # the same accepted proof offered to verifiers configured with another key / other generators, in the same process
+        other = [{"ctx": ctx, "op": "check_proof", "args": [sp["_pk"], sp["_gens"], sp["_proof"], sp["_es"], sp["_out"], lab], "tag": "accepted-first"},
+                 {"ctx": ctx, "op": "check_proof", "args": [str((int(sp["_pk"]) * g) % p), sp["_gens"], sp["_proof"], sp["_es"], sp["_out"], lab], "tag": "then-other-pk"},
+                 {"ctx": ctx, "op": "check_proof", "args": [sp["_pk"], list(reversed(sp["_gens"])), sp["_proof"], sp["_es"], sp["_out"], lab], "tag": "then-other-generators"}]
+        og = env.harness(other)
+        if og != [True, False, False]:
+            env.violation("an accepted proof offered again in the same process under another key / other generators on %s (N=%d): %s, expected [True, False, False]" % (ctx, n, og),
+                          {"kind": "battery", "case": other, "out": og})
     if env.quick:
         # 2048-bit model evaluations cost ~10 s each: keep one case per mutation family there
         seen = set(); keep = []
